@@ -198,7 +198,7 @@ func (w *World) deliver(name string, signer int, params []*big.Int, f func(ctx s
 			res.result = 1
 			res.errMsg = err.Error()
 			// a withdrawal of credited tips that fails because the escrow pool cannot pay (C04)
-			if name == "WithdrawTip" && strings.Contains(res.errMsg, "insufficient funds") {
+			if (name == "WithdrawTip" || name == "ClaimReward" || name == "WithdrawFeeRefund") && strings.Contains(res.errMsg, "insufficient funds") {
 				res.result = 3
 			}
 			return
@@ -784,7 +784,7 @@ func (w *World) genDisputeOp(a int) genOp {
 				}
 			}
 		}
-		return genOp{name: "AddFeeToDispute", signer: a, roles: roles, run: func(ctx sdk.Context) error {
+		return genOp{name: "AddFeeToDispute", signer: a, roles: roles, params: []*big.Int{bi(int64(b2i(bond)))}, run: func(ctx sdk.Context) error {
 			_, err := w.disputeMS.AddFeeToDispute(ctx, &disputetypes.MsgAddFeeToDispute{Creator: addr, DisputeId: id, Amount: w.coin(amt), PayFromBond: bond})
 			return err
 		}}
@@ -804,7 +804,7 @@ func (w *World) genDisputeOp(a int) genOp {
 			if fee.Sign() <= 0 {
 				fee = bi(1)
 			}
-			return genOp{name: "ProposeDispute", signer: a, roles: w.backersOf(rep), run: func(ctx sdk.Context) error {
+			return genOp{name: "ProposeDispute", signer: a, roles: w.backersOf(rep), params: []*big.Int{bi(0)}, run: func(ctx sdk.Context) error {
 				_, err := w.disputeMS.ProposeDispute(ctx, &disputetypes.MsgProposeDispute{Creator: addr, Report: &rep, DisputeCategory: d.DisputeCategory, Fee: w.coin(fee), PayFromBond: false})
 				if err == nil {
 					ds, _ := w.s.Disputekeeper.GetOpenDisputes(ctx)
@@ -854,7 +854,7 @@ func (w *World) genDisputeOp(a int) genOp {
 			}
 		}
 	}
-	return genOp{name: "ProposeDispute", signer: a, roles: roles, run: func(ctx sdk.Context) error {
+	return genOp{name: "ProposeDispute", signer: a, roles: roles, params: []*big.Int{bi(int64(b2i(bond)))}, run: func(ctx sdk.Context) error {
 		_, err := w.disputeMS.ProposeDispute(ctx, &disputetypes.MsgProposeDispute{Creator: addr, Report: &rep, DisputeCategory: cat, Fee: w.coin(fee), PayFromBond: bond})
 		if err == nil {
 			ds, _ := w.s.Disputekeeper.GetOpenDisputes(ctx)
